@@ -1,3 +1,4 @@
+pub mod c02;
 pub mod c06;
 pub mod c07;
 pub mod c08;
